@@ -67,8 +67,40 @@ func ruleC01Unwrap(p *Program, r *Run) {
 		bad *emitEvent
 	}
 	writers := map[string]*w{}
+	// the functions concerned: those that write *the expression* of their node parameter, i.e. look at its kind
+	// (type switch / assertion) or hand it to another writer
+	writesNode := map[*ast.FuncDecl]bool{}
+	nodeWriter := func(fd *ast.FuncDecl) bool {
+		if v, ok := writesNode[fd]; ok {
+			return v
+		}
+		xp := g.xParamOf(fd)
+		res := false
+		if xp != nil {
+			info := p.Info
+			ast.Inspect(fd.Body, func(n ast.Node) bool {
+				switch v := n.(type) {
+				case *ast.TypeAssertExpr:
+					if objOf(info, v.X) == xp {
+						res = true
+					}
+				case *ast.CallExpr:
+					if f := Callee(info, v); f != nil && g.emitFns[f] {
+						for _, a := range v.Args {
+							if objOf(info, a) == xp {
+								res = true
+							}
+						}
+					}
+				}
+				return !res
+			})
+		}
+		writesNode[fd] = res
+		return res
+	}
 	for _, o := range g.occs {
-		if g.xParamOf(o.Ev.Func) == nil {
+		if !nodeWriter(o.Ev.Func) {
 			continue
 		}
 		ww := writers[o.Ev.FnName]
